@@ -89,3 +89,72 @@ func Ownership(p *Prog, s OwnSpec) OwnResult {
 	res.Ends = len(endOK)
 	return res
 }
+
+// CalleeConsumes reports whether helper h consumes its parameter pi exactly
+// once on every path. base decides whether an instruction consumes a value
+// for which isAlias holds; calls to further helpers are followed (depth-bounded).
+func CalleeConsumes(p *Prog, h *ssa.Function, pi int, base func(in ssa.Instruction, isAlias func(ssa.Value) bool) bool, depth int) bool {
+	if h == nil || h.Blocks == nil || pi >= len(h.Params) || depth > MaxSummaryDepth {
+		return false
+	}
+	// aliases are judged in the helper's own frame
+	saved := substMap
+	substMap = map[ssa.Value]ssa.Value{}
+	defer func() { substMap = saved }()
+	param := ssa.Value(h.Params[pi])
+	spill := ssa.Value(nil)
+	for _, ref := range *h.Params[pi].Referrers() {
+		if st, ok := ref.(*ssa.Store); ok && st.Val == param {
+			if al, ok := st.Addr.(*ssa.Alloc); ok {
+				spill = al
+			}
+		}
+	}
+	isAlias := func(v ssa.Value) bool {
+		v = Strip(v)
+		if v == param {
+			return true
+		}
+		pp := PathOf(v)
+		if pp.Root == param || (spill != nil && pp.Root == spill) {
+			// the value itself or an embedded connection of it
+			for _, f := range pp.Fields {
+				if f != "Conn" && f != "conn" {
+					return false
+				}
+			}
+			return true
+		}
+		return false
+	}
+	consume := func(in ssa.Instruction) bool {
+		if base(in, isAlias) {
+			return true
+		}
+		return CallConsumes(p, in, isAlias, base, depth+1)
+	}
+	res := Ownership(p, OwnSpec{Fn: h, Start: h.Blocks[0], Consume: consume})
+	return len(res.Leaks) == 0 && len(res.Doubles) == 0 && res.Ends > 0
+}
+
+// CallConsumes: in is a call to a module helper that receives an alias as
+// argument i and consumes that parameter exactly once on every path.
+func CallConsumes(p *Prog, in ssa.Instruction, isAlias func(ssa.Value) bool, base func(ssa.Instruction, func(ssa.Value) bool) bool, depth int) bool {
+	ci, ok := in.(ssa.CallInstruction)
+	if !ok {
+		return false
+	}
+	if _, isGo := in.(*ssa.Go); isGo {
+		return false
+	}
+	h := ModuleCallee(ci.Common())
+	if h == nil {
+		return false
+	}
+	for i, a := range ci.Common().Args {
+		if isAlias(a) && CalleeConsumes(p, h, i, base, depth) {
+			return true
+		}
+	}
+	return false
+}
